@@ -52,7 +52,10 @@ def front(chk, need=("harness_release", "driver", "specdriver")):
 
 def finish_with_tie(chk, broken, extra_replay=None):
     """a broken proof obligation / correspondence without any concrete failing input so far"""
-    if broken and not any(found for (_, _, found) in chk.violations):
+    # (a violation that belongs to a listed known finding is not "a failing input found" for this purpose: with it alone
+    # the broken tie must still be reported)
+    known_classes = {e.get("class") for e in lib.known_findings(chk.prop) if e.get("class")}
+    if broken and not any(found and replay.get("class") not in known_classes for (_, replay, found) in chk.violations):
         replay = {"broken": broken, "log": getattr(chk, "obligations", {}).get("log", "")[-1500:],
                   "build_log": chk.build_status.get("_log", "")[-1500:]}
         if extra_replay:
@@ -287,6 +290,8 @@ def position_check(chk, rules, nontrivial_rule):
     chk.cov["traces_validated_against_impl"] = len(run.blocks) - len(dis)
     chk.cov["disagreements_checked"] = sum(len(v) for v in run.impl_raw.values())
     chk.cov["input_distribution"] = st
+    if run.corpus_dropped:
+        chk.notes.append("scripted games refused by the rules and left out of the corpus (fault of tools/positions.py): %s" % ", ".join(run.corpus_dropped))
     g0 = run.blocks[1 % len(run.blocks)]
     chk.cov["samples"] = [{"case": g0[:12] + ["..."], "implementation": run.impl_raw.get(g0[0][2:], [])[:6]}]
     if dis:
